@@ -125,6 +125,25 @@ def gen_cases(rng, tier):
     return out
 
 
+def extra_stage(tier, rng, work):
+    """size ceilings of the save / deliver paths, on the real code (no model: sizes are not modelled)"""
+    import os
+    cases = [Case("limits", [["limits"]])]
+    outs, problems = vlib.run_harness("c05", cases, os.path.join(work, "limits"), "release", shards=1)
+    viols = []
+    o = outs.get("limits")
+    if o is None or o["panic"] is not None or not o["obs"]:
+        problems.append("c05 limits probe produced no observation")
+    else:
+        for (vc, vt) in o["viol"]:
+            viols.append((cases[0], vc, vt))
+        ob = o["obs"][0]
+        # accepted, written, loaded, blob_ok, client_ok, state_ok, worker_ok
+        if ob[0] != 1 or ob[1] != 1 or ob[4] != 1 or ob[5] != 1:
+            problems.append("c05 limits probe: the large requests were not accepted / written as intended: %r" % (ob,))
+    return dict(failures=problems, viols=viols, coverage=dict(limit_probes=1))
+
+
 def corpus_cases():
     return C.corpus_cases(ID)
 
@@ -155,7 +174,10 @@ LEVEL_TEXT = ("Machine-checked proof (Coq 8.16 + std++) over the executable Conf
               "through all four paths (requests, JSON state file with the master's load loop, protobuf blob, serde_json of "
               "the state) and compared with the extracted model's verdict; the property's oracle is evaluated on the "
               "implementation.")
-LEVEL_NOTE = ("State-file framing modelled and proved (round trip for every list, behaviour on a cut last record and on an "
+LEVEL_NOTE = ("Size ceilings (not modelled, probed on the real code on every run): the protobuf bootstrap blob travels through a "
+              "temporary file, not through the command channel, so it has no ceiling; open boundary findings: a saved JSON record "
+              "above the 200000-byte buffer of the load_state loop cannot be loaded back, and a request within |worker id| bytes of "
+              "max_command_buffer_size fits the client channel and the state but not the worker channel. State-file framing modelled and proved (round trip for every list, behaviour on a cut last record and on an "
               "undecodable record), tied to the real nom parser on every run (framed numbers incl. garbage / cuts against the "
               "extracted model; the real state file cut at every point against the expected complete-record count); SAVE ids "
               "distinct for every length (usize counters, checked against the source). The request-level theorem (replay_generate) is proved at full strength for every reachable state and all "
